@@ -471,7 +471,9 @@ impl Player {
         self.observers.clear();
         *self.lines.borrow_mut() = 0;
         match Story::new(text) {
-            Ok(s) => {
+            Ok(mut s) => {
+                // the construction budget (VERIF_NEW_FUEL) ends with the construction
+                s.verif_set_fuel(None);
                 self.story = Some(s);
                 res_ok(J::Null)
             }
